@@ -8,39 +8,51 @@ from xml.sax.saxutils import quoteattr
 from common import time_limit, hex6, unhex6
 
 ID = "C09"
-GEN_DEPENDS = ["Alphabets"]
+GEN_DEPENDS = ["Alphabets", "Tables", "C09Consts"]
 RULE = ("matrices of every data type (dna, rna, protein, standard incl. custom symbol sets, restriction, infinite sites, continuous) "
         "x building route (from_dict, parsed from harness-composed NEXUS sequential/interleaved/DATA-block/matchchar/{..}(..) tokens, "
         "PHYLIP strict/relaxed x sequential/interleaved, FASTA, NeXML with explicit columns, concatenate, export_character_indices) "
         "x target format x writer/reader options, 1xN and Nx1 included, conversion chains of two formats, data sets with 1-3 "
-        "namespaces x suppress_block_titles in {default, None, False, True} x {nexus, nexml}; thorough adds every symbol of every "
+        "namespaces x suppress_block_titles in {default, None, False, True} x {nexus, nexml}; NEXUS data sets also x unquoted_underscores "
+        "x preserve_spaces x reader preserve_underscores (where the taxon labels survive it) with namespace / matrix / tree-list labels "
+        "drawn from families that differ only in blank versus underscore, letter case, quote characters or a '.1' suffix, and taxon "
+        "labels with blanks / underscores; labels x escape_nexus_token options x tokenizer options; thorough adds every symbol of every "
         "alphabet in every position class, every dimension pair <= 3x3 per type/route/format and every (namespaces, option) pair; "
         "non-trivial = at least 2 taxa and a gap, missing or ambiguity symbol (or a continuous value that is not an integer), "
         "or a data set with >= 2 namespaces")
 MODELLED_NOT_VERIFIED = [
     "C09: XML text of NeXML (the model works on the abstract document: <char> ids in format order, <cell char= state=>), float "
-    "formatting of continuous values (repr; the model takes the decimal tokens as given and compares them numerically), label quoting (C02), PHYLIP label uniquification, NEXUS tokenizer "
+    "formatting of continuous values (repr; the model takes the decimal tokens as given and compares them numerically), quoting of row / taxon labels (C02; "
+    "block TITLE / LINK tokens ARE modelled: escToken / readToken, compared token by token), PHYLIP label uniquification, NEXUS tokenizer "
     "(rows reach the model as label token + row text), EQUATE emission",
     "C09: the Lean readers/writers are hand-written from NexusWriter._write_char_block/_compose_format_terms, NexusReader."
     "_parse_format_statement/_read_character_states/_process_discrete_matrix_data, PhylipWriter/PhylipReader, FastaWriter/FastaReader, "
-    "NexmlWriter._write_format_section, _NexmlCharBlockParser, _link_blocks/_get_block_title/_get_taxon_namespace; tied to the code "
-    "by per-case comparison of written text and read-back content; the symbol tables are regenerated from charstatemodel.py",
+    "NexmlWriter._write_format_section, _NexmlCharBlockParser, _link_blocks/_get_block_title/_get_taxon_namespace, escape_nexus_token; tied to the code "
+    "by per-case comparison of written text and read-back content; REGENERATED from the source on every run and bridged by theorems "
+    "(bridge_*): the symbol tables (Gen/Alphabets), the quoting class and the tokenizer's captured delimiters (Gen/Tables), the PHYLIP strict "
+    "label width in writer and reader, the FASTA wrap default and width, the DATATYPE keyword table and the reader's initial FORMAT state (Gen/C09Consts)",
 ]
 EXPLANATION = ("Theorems (Props/C09.lean): symbol tables (symbol_roundtrip, symbol_case_insensitive, symbol_synonyms, ambiguity_token_roundtrip) and, for "
                "ANY custom standard symbol set unchanged by upper-casing, standard_symbols_denote_themselves; FORMAT (format_roundtrip for the fixed "
                "types, format_standard_roundtrip: parsing half for arbitrary such symbol strings); NEXUS rows and whole matrix, sequential on both "
-               "entry paths (cells_roundtrip, nexus_matrix_roundtrip) and interleaved in pages of any widths (nexus_interleaved_matrix_roundtrip); "
-               "MATCHCHAR at row level and lifted to one nxStep with the first row looked up in the accumulator (matchchar_row_roundtrip, "
-               "nexus_matchchar_roundtrip_partial: whole-matrix fold missing); continuous rows as decimal tokens (continuous_tokens_roundtrip, "
-               "continuous_row_roundtrip); NeXML otus references (nexml_links_resolve); custom alphabets through FORMAT and "
-               "_build_state_alphabet (format_standard_alphabet_roundtrip); whole-file PHYLIP: relaxed for labels written "
+               "entry paths (cells_roundtrip, nexus_matrix_roundtrip), interleaved in pages of any widths (nexus_interleaved_matrix_roundtrip) and "
+               "with MATCHCHAR in any cells of any row after the first, whole matrix, both entry paths (nexus_matchchar_matrix_roundtrip; "
+               "matchchar_row_roundtrip / nexus_matchchar_step / nexus_interleaved_step are its steps); continuous rows as decimal tokens "
+               "(continuous_tokens_roundtrip, continuous_row_roundtrip); NeXML otus references (nexml_links_resolve); custom alphabets through "
+               "FORMAT and _build_state_alphabet (format_standard_alphabet_roundtrip); whole-file PHYLIP: relaxed for labels written "
                "without blanks under every underscore option pair (phylip_relaxed_roundtrip), relaxed with multispace delimiter for labels with "
                "single inner blanks (phylip_multispace_roundtrip), strict (phylip_strict_roundtrip); whole-file FASTA with wrapping "
-               "(fasta_roundtrip); NeXML columns (nexml_columns_partial, nexml_matrix_columns: abstract document, identity column ids); TITLE/LINK "
-               "(assignTitles_distinct, title_link_resolves); conversion chains as compositions of the above for symbol-only rows "
-               "(convert_*). Whole-file theorems assume at least one row and rows of one positive length. Correspondence/oracle only: match "
-               "characters and row reordering in whole matrices, PHYLIP interleaved paging, float formatting of continuous values, NeXML XML "
-               "text, tree lists, construction routes (from_dict/concatenate/export), lower-case custom symbols.")
+               "(fasta_roundtrip); NeXML columns for ANY injective column-id scheme, ragged matrices included (nexml_matrix_columns_any_ids; "
+               "nexml_matrix_columns is the identity-id instance, nexml_columns_partial the row lemma with the id property as hypothesis); "
+               "TITLE/LINK: de-duplication by the key upper-case + underscore-as-blank (assignTitles_distinct), resolution of raw titles "
+               "(title_link_resolves) and of the ESCAPED tokens under every setting of preserve_spaces / unquoted_underscores / reader "
+               "preserve_underscores for arbitrary labels (title_link_resolves_escaped, via tkey_readToken); title_token_roundtrip: default "
+               "options give the label back exactly; bridge_* tie the regenerated kernels to the model; conversion chains as compositions "
+               "of the above for symbol-only rows (convert_*). Whole-file theorems assume at least one row and rows of one positive length. "
+               "Correspondence/oracle only: rows in another order than TAXLABELS, MATCHCHAR combined with interleaving, PHYLIP interleaved "
+               "paging, whole continuous matrices and float formatting, NeXML XML text, tree lists, construction routes "
+               "(from_dict/concatenate/export), lower-case custom symbols. format_standard_roundtrip_partial / phylip_*_line_roundtrip_partial / "
+               "fasta_wrap_roundtrip_partial are fragments kept beside the full statements named above.")
 
 NS = "{http://www.nexml.org/2009}"
 
@@ -1084,13 +1096,45 @@ def gen_matrix_spec(rng, dt=None, via=None, fmt=None, dims=None):
 
 
 # ---------------------------------------------------------------------------------------------- data sets (clause c)
-def gen_dataset_spec(rng, schema=None, sbt="?", n=None, fancy=None):
+TITLE_BASES = ["Clade A", "my taxa", "Set B", "T 1", "x y z", "Q"]
+
+
+def title_family(rng):
+    """labels that differ only in blank versus underscore, in letter case, or in quote characters (and the writer's own
+    de-duplication suffixes): the block TITLE / LINK tokens must stay distinct after escaping, for every reader setting"""
+    b = rng.choice(TITLE_BASES)
+    u = b.replace(" ", "_")
+    fam = [b, u, b.lower(), b.upper(), u.lower(), u.upper(), "'%s'" % b, b + "'", '"%s"' % b, "`%s`" % u, b.replace(" ", "  "),
+           b + ".1", u + ".1", b.lower() + ".2", b, u]
+    if b.count(" ") > 1:
+        fam.append(b.replace(" ", "_", 1))          # mixed: one underscore, one blank
+    return fam
+
+
+def gen_dataset_spec(rng, schema=None, sbt="?", n=None, fancy=None, family=None):
     schema = schema or rng.choice(["nexus", "nexus", "nexml"])
     n = n or rng.randint(1, 3)
     if sbt == "?":
         sbt = rng.choice(["default", None, False, True])
     fancy = rng.random() < 0.4 if fancy is None else fancy
+    family = (schema == "nexus" and rng.random() < 0.45) if family is None else family
     pool = ["Taxa1", "birds", "X", "x", "Set_B", "my taxa", "T.1", "it's", None, "X"] if fancy else ["T0", "T1", "T2", "U", "V", None]
+    if family:
+        pool = title_family(rng)
+    # writer / reader options of the NEXUS schema, every combination; the reader keeps unquoted underscores only when the
+    # taxon labels survive that (no blank written as an underscore)
+    w, r = {}, {}
+    if schema == "nexus" and (family or rng.random() < 0.3):
+        if rng.random() < 0.5:
+            w["unquoted_underscores"] = True
+        if rng.random() < 0.5:
+            w["preserve_spaces"] = True
+    taxon_blank = rng.random() < 0.3
+    taxon_under = rng.random() < 0.3
+    if schema == "nexus" and rng.random() < 0.3 and (w.get("preserve_spaces") or not taxon_blank):
+        r["preserve_underscores"] = True
+    if schema == "nexus" and w.get("unquoted_underscores") and not r.get("preserve_underscores"):
+        taxon_under = False               # soft underscores would come back as blanks
     ns = []
     for i in range(n):
         k = rng.randint(1, 4)
@@ -1100,27 +1144,37 @@ def gen_dataset_spec(rng, schema=None, sbt="?", n=None, fancy=None):
             labs = numeric_labels(rng, len(labs))
         elif rng.random() < 0.3:
             labs = labs[:max(1, len(labs) - 1)] + ["shared"]
+        if taxon_blank and schema == "nexus":
+            labs[0] = "sp " + labs[0]
+        if taxon_under and schema == "nexus" and len(labs) > 1:
+            labs[-1] = "sp_" + labs[-1]
         ns.append({"label": rng.choice(pool), "taxa": labs})
     mats, trees = [], []
     for b in range(rng.randint(1, 4)):
         i = rng.randrange(n)
+        blab = [None, "M%d" % b, ns[i]["label"]] + ([rng.choice(pool), rng.choice(pool)] if family else [])
         if rng.random() < 0.65:
             # any data type the schema supports, in any order; some matrices are concatenations (they carry character
             # subsets, so a SETS block follows them in NEXUS), some are continuous (negative values, exponents)
             dts = ["dna", "protein", "standard", "rna", "continuous", "continuous"] + (["nucleotide"] if schema == "nexus" else [])
             dt = rng.choice(dts)
             nchar = rng.randint(1, 6)
-            md = {"ns": i, "dt": dt, "label": rng.choice([None, "M%d" % b, ns[i]["label"]]),
+            md = {"ns": i, "dt": dt, "label": rng.choice(blab),
                   "rows": gen_rows(rng, dt, len(ns[i]["taxa"]), nchar, SYMS.get(dt))}
             if dt != "standard" and nchar >= 2 and rng.random() < 0.4:
                 md["cut"] = sorted(rng.sample(range(1, nchar), rng.randint(1, min(2, nchar - 1))))
             mats.append(md)
         else:
-            td = {"ns": i, "label": rng.choice([None, "TL%d" % b]), "n": rng.randint(1, 2)}
+            td = {"ns": i, "label": rng.choice([None, "TL%d" % b] + ([rng.choice(pool)] if family else [])), "n": rng.randint(1, 2)}
             if rng.random() < 0.6:
                 td["lens"] = [[gen_float(rng) for _ in ns[i]["taxa"]] for _ in range(td["n"])]
             trees.append(td)
-    return {"kind": "dataset", "schema": schema, "sbt": sbt, "ns": ns, "mats": mats, "trees": trees}
+    spec = {"kind": "dataset", "schema": schema, "sbt": sbt, "ns": ns, "mats": mats, "trees": trees}
+    if w or r:
+        spec["w"], spec["r"] = w, r
+    if family:
+        spec["family"] = True
+    return spec
 
 
 def parse_written_links(text):
@@ -1188,15 +1242,23 @@ def exec_dataset(ctx, dendropy, spec, pending):
     n = len(nss)
     sbt = spec["sbt"]
     kw = {} if (sbt == "default" or spec["schema"] != "nexus") else {"suppress_block_titles": sbt}
+    wopt, ropt = dict(spec.get("w") or {}), dict(spec.get("r") or {})
+    kw.update(wopt)
     must_work = not (sbt is True and n > 1 and spec["schema"] == "nexus")   # True is documented to possibly break multi-namespace files
     ctx.case(spec, n >= 2, sample={"schema": spec["schema"], "suppress_block_titles": str(sbt), "namespaces": n,
-                                   "blocks": len(blocks)}, kind="dataset/%s/%s/%d" % (spec["schema"], sbt, n))
+                                   "blocks": len(blocks), "options": sorted(wopt) + sorted(ropt)},
+             kind="dataset/%s/%s/%d" % (spec["schema"], sbt, n))
+    if spec["schema"] == "nexus":
+        ctx.dist["dataset-options/uu=%d,ps=%d,pu=%d%s" % (bool(wopt.get("unquoted_underscores")), bool(wopt.get("preserve_spaces")),
+                                                        bool(ropt.get("preserve_underscores")), ",family" if spec.get("family") else "")] += 1
     kind = "dataset:%s" % spec["schema"]
     if sbt is False and n > 1:
         kind = "title-option:%s" % spec["schema"]
     labs = [d["label"] for d in spec["ns"] if d["label"] is not None]
     if len({l.upper() for l in labs}) < len(set(labs)):
         kind = "title-case:%s" % spec["schema"]          # labels differing only in letter case
+    if len({l.upper().replace("_", " ") for l in labs}) < len({l.upper() for l in labs}):
+        kind = "title-escape:%s" % spec["schema"]        # labels differing only in blank versus underscore
     try:
         with time_limit(20):
             text = ds.as_string(spec["schema"], **kw)
@@ -1207,14 +1269,14 @@ def exec_dataset(ctx, dendropy, spec, pending):
     err = None
     try:
         with time_limit(20):
-            d2 = dendropy.DataSet.get(data=text, schema=spec["schema"])
+            d2 = dendropy.DataSet.get(data=text, schema=spec["schema"], **ropt)
     except Exception as e:
         d2, err = None, "%s: %s" % (type(e).__name__, str(e)[:200])
     attach = []
     if d2 is None:
         if must_work:
-            report(ctx, kind, "data set with %d namespaces written to %s with suppress_block_titles=%s cannot be read back: %s" % (
-                n, spec["schema"], sbt, err), spec)
+            report(ctx, kind, "data set with %d namespaces written to %s with suppress_block_titles=%s %s cannot be read back%s: %s" % (
+                n, spec["schema"], sbt, wopt or "", (" with %s" % ropt) if ropt else "", err), spec)
     else:
         problems = []
         got_ns = [[t.label for t in tns] for tns in d2.taxon_namespaces]
@@ -1268,17 +1330,60 @@ def exec_dataset(ctx, dendropy, spec, pending):
             res = [str(a) for a in attach] if d2 is not None and len(attach) == len(blocks) else ["err"] * len(blocks)
             pending.append(("otus %d %s %s" % (len(ids), " ".join(hex6(i) for i in ids), " ".join(hex6(r) for r in refs)), spec,
                             " ".join(res), "otus"))
-    # ---- model: TITLE / LINK decisions of the writer and their resolution
-    simple_titles = all(d["label"] is not None and re.match(r"^[A-Za-z0-9.]+$", d["label"]) for d in spec["ns"])
-    if spec["schema"] == "nexus" and simple_titles and all((md["label"] is None or md["label"] not in [d["label"] for d in spec["ns"]]) for md in spec["mats"]):
+    # ---- model: TITLE / LINK tokens of the writer (de-duplicated, escaped under the options) and their resolution
+    ns_labels = [d["label"] for d in spec["ns"]]
+    plain = all(l is not None and l != "" and ascii_ok([l]) for l in ns_labels)
+    if spec["schema"] == "nexus" and plain:
         wl = parse_written_links(text)
         titles = [b[1] or "-" for b in wl if b[0] == "TAXA"]
         links = [b[2] or "-" for b in wl if b[0] != "TAXA" and b[0] != "SETS"]
         res = [str(a) for a in attach] if d2 is not None and len(attach) == len(blocks) else ["err"] * len(blocks)
         impl = " ".join([hex6(t) if t != "-" else "-" for t in titles] + ["|"] + [hex6(t) if t != "-" else "-" for t in links] + ["|"] + res)
-        line = "links %s %d %s %s" % ({"default": "N", None: "N", False: "F", True: "T"}[sbt], n,
-                                     " ".join(hex6(d["label"]) for d in spec["ns"]), " ".join(str(b) for b in blocks))
+        flags = "%d %d %d" % (bool(wopt.get("preserve_spaces")),
+                              bool(wopt.get("unquoted_underscores")), bool(ropt.get("preserve_underscores")))
+        line = "links %s %s %d %s %s" % ({"default": "N", None: "N", False: "F", True: "T"}[sbt], flags, n,
+                                        " ".join(hex6(l) for l in ns_labels), " ".join(str(b) for b in blocks))
         pending.append((line, spec, impl, "links"))
+        # titles of all labelled blocks, in writing order (namespaces, matrices, tree lists): one pool of used titles
+        written = sbt is False or (sbt in ("default", None) and n > 1)
+        blabs = [md["label"] for md in spec["mats"]] + [td["label"] for td in spec["trees"]]
+        others = [b for b in wl if b[0] not in ("TAXA", "SETS")]
+        if written and len(others) == len(blabs) and all(l is None or (l != "" and ascii_ok([l])) for l in blabs):
+            got_titles = titles + [b[1] or "-" for b, l in zip(others, blabs) if l is not None]
+            line = "titles %d %d %d %s" % (bool(wopt.get("preserve_spaces")), bool(wopt.get("unquoted_underscores")), n,
+                                          " ".join(hex6(l) for l in ns_labels + [l for l in blabs if l is not None]))
+            pending.append((line, spec, " ".join(hex6(t) if t != "-" else "-" for t in got_titles), "titles"))
+
+
+def check_tokens(ctx, dendropy, pending):
+    """`escape_nexus_token` and the NexusTokenizer's reading of one token against the model's escToken / readToken"""
+    from dendropy.dataio import nexusprocessing as nxp
+    rng = ctx.rng
+    labels = ["a b", "a_b", "it's", "x\ty", "A  B", "q", "a'b_c d", "'", "''", "_", " ", "a-b", "a.b", "[c]", "semi;colon", "A__B", " lead", "trail ",
+              "Clade A", "Clade_A", "'Clade A'", "a\nb", "{x}", "p+q", "1", "a`b", "a/b", "a\\b", "<t>", "e=mc2", "s*", 'd"q']
+    for _ in range(ctx.pick(60, 600)):
+        labels.append("".join(rng.choice("ab_ ' .Z9-\t(") for _ in range(rng.randint(1, 6))))
+    for lab in labels:
+        for ps in (False, True):
+            for qu in (False, True):
+                e = nxp.escape_nexus_token(lab, preserve_spaces=ps, quote_underscores=qu)
+                ctx.case(["esc", lab, ps, qu], False, kind="token")
+                pending.append(("esc %d %d %s" % (ps, qu, hex6(lab)), {"kind": "tok", "label": lab, "ps": ps, "qu": qu}, hex6(e) if e else "=", "esc"))
+                if not e.strip():
+                    continue
+                for pu in (False, True):
+                    tk = nxp.NexusTokenizer(io.StringIO(e + " ;"), preserve_unquoted_underscores=pu)
+                    try:
+                        t = tk.require_next_token()
+                    except Exception as ex:
+                        t = None
+                    if t is None or (not e.startswith("'") and any(c in e for c in " \t\n")):
+                        continue       # an unquoted token with leading / trailing blanks is not one token
+                    pending.append(("tok %d %s" % (pu, hex6(e)), {"kind": "tok", "label": lab, "ps": ps, "qu": qu, "pu": pu},
+                                    hex6(t) if t else "=", "tok"))
+                    # oracle (statement: labels obey the quoting rule): hard underscores + default reader give the label back
+                    if qu and not pu and t != lab and lab == lab.strip() and "\n" not in lab:
+                        ctx.fail("token", "label %r written as %r reads back as %r" % (lab, e, t), {"kind": "tok", "label": lab, "ps": ps, "qu": qu, "pu": pu})
 
 
 # ---------------------------------------------------------------------------------------------- alphabets vs the generated tables
@@ -1496,6 +1601,8 @@ def exec_spec(ctx, dendropy, spec, pending):
         exec_reject(ctx, dendropy, spec, pending)
     elif k in ("sym", "match"):
         check_alphabets(ctx, dendropy, pending)
+    elif k == "tok":
+        check_tokens(ctx, dendropy, pending)
     elif k == "dec":
         check_decimals(ctx, pending)
     else:
@@ -1516,6 +1623,7 @@ def run(ctx):
     sizes0 = alphabet_sizes(dendropy)
     check_alphabets(ctx, dendropy, pending)
     check_decimals(ctx, pending)
+    check_tokens(ctx, dendropy, pending)
     flush(ctx, pending)
     for f in FORMATS:
         exec_equate(ctx, dendropy, dict(EQUATE_SPEC, target=f))
@@ -1593,6 +1701,64 @@ def run(ctx):
                                                "alphabet x 5 positions x format; title option x namespaces x schema" % count)
     if alphabet_sizes(dendropy) != sizes0:
         ctx.note("a fixed (global) state alphabet grew during the run: %s -> %s" % (sizes0, alphabet_sizes(dendropy)))
+
+
+def search(ctx, broken):
+    """obligations (a regenerated kernel, a bridge theorem) or the correspondence broke: look for a concrete failing
+    input on the real code, aimed at the kernels of Gen/C09Consts / Gen/Tables / Gen/Alphabets — strict PHYLIP labels
+    around the label width, FASTA sequences around the wrap column, every DATATYPE keyword through the NEXUS reader,
+    every symbol of every alphabet, multi-namespace data sets whose titles differ only by escaping"""
+    dendropy = __import__("dendropy")
+    rng = ctx.rng
+    pending = []
+    t_end = __import__("time").time() + ctx.pick(20, 120)
+
+    def more():
+        return __import__("time").time() < t_end and not ctx.failures
+
+    # strict PHYLIP: label lengths 1..10 (admissible), sequence lengths around the columns
+    for ln in range(1, 11):
+        if not more():
+            break
+        labels = [("%c" % (97 + i)) * ln for i in range(3)]
+        for nchar in (1, 9, 10, 11):
+            rows = [[rng.choice("ACGT") for _ in range(nchar)] for _ in labels]
+            spec = {"kind": "matrix", "dt": "dna", "std": None, "target": "phylip", "w": {"strict": True}, "r": {"strict": True},
+                    "route": {"via": "dict", "labels": labels, "rows": rows, "input": rows, "as_str": True}}
+            exec_spec(ctx, dendropy, spec, pending)
+            text = "3 %d\n" % nchar + "".join(l.ljust(10) + "".join(r) + "\n" for l, r in zip(labels, rows))
+            spec = {"kind": "matrix", "dt": "dna", "std": None, "target": "fasta", "w": {}, "r": {},
+                    "route": {"via": "phylip", "text": text, "kw": {"strict": True}, "ref": [[l, r] for l, r in zip(labels, rows)]}}
+            exec_spec(ctx, dendropy, spec, pending)
+    # FASTA around the wrap column and its multiples
+    for nchar in (1, 59, 60, 61, 69, 70, 71, 139, 140, 141, 211):
+        if not more():
+            break
+        rows = [[rng.choice("ACGT-?N") for _ in range(nchar)] for _ in range(2)]
+        spec = {"kind": "matrix", "dt": "dna", "std": None, "target": "fasta", "w": {}, "r": {},
+                "route": {"via": "dict", "labels": ["s1", "s2"], "rows": rows, "input": rows, "as_str": True}}
+        exec_spec(ctx, dendropy, spec, pending)
+    # every DATATYPE keyword, each with its full symbol set
+    for dt, kws in (("dna", ["DNA", "NUCLEOTIDES"]), ("rna", ["RNA"]), ("nucleotide", ["NUCLEOTIDE"]), ("protein", ["PROTEIN"]),
+                    ("standard", ["STANDARD"])):
+        for kw in kws:
+            if not more():
+                break
+            syms = SYMS[dt]
+            rows = [list(syms), list(syms[::-1])]
+            p = {"simple": False, "taxa": ["t1", "t2"], "ntax": 2, "nchar": len(syms), "fmt": "FORMAT DATATYPE=%s GAP=- MISSING=?;" % kw,
+                 "rows": [["t1", "".join(rows[0])], ["t2", "".join(rows[1])]]}
+            spec = {"kind": "matrix", "dt": dt, "std": None, "target": "nexus", "w": {}, "r": {},
+                    "route": {"via": "nexus", "params": p, "ref": [["t1", rows[0]], ["t2", rows[1]]]}}
+            exec_spec(ctx, dendropy, spec, pending)
+    flush(ctx, pending)
+    # titles that differ only by escaping, every option combination
+    while more():
+        exec_spec(ctx, dendropy, gen_dataset_spec(rng, schema="nexus", n=rng.randint(2, 3), family=True), pending)
+        exec_spec(ctx, dendropy, gen_matrix_spec(rng, fmt=rng.choice(["phylip", "fasta", "nexus"])), pending)
+        if len(pending) >= 200:
+            flush(ctx, pending)
+    flush(ctx, pending)
 
 
 def replay(ctx, rec):
